@@ -134,12 +134,17 @@ class Stats:
 # worker pool (fork after the parent has imported eyecite and built its tables)
 
 _DRIVER = None
+_CURRENT_SHARD = None
 
 
 def _worker(shard):
+    global _CURRENT_SHARD
+    _CURRENT_SHARD = shard
     t0 = time.time()
     try:
         st = _DRIVER.run_shard(shard)
+        for v in st.violations:
+            v.setdefault("shard", shard)
     except BaseException:  # harness error, reported as such (never as a property verdict)
         st = Stats()
         st.extra["harness_errors"] = [
@@ -164,7 +169,9 @@ def run_shards(driver, shards, seed=0, jobs=None):
             total.merge(_worker(s))
         return total
     ctx = mp.get_context("fork")
-    with ctx.Pool(min(jobs, len(shards))) as pool:
+    # one fresh child per shard: every shard starts from the parent's state, so that a violation which
+    # depends on the executions before it inside its shard can be reproduced by re-running that shard
+    with ctx.Pool(min(jobs, len(shards)), maxtasksperchild=1) as pool:
         for st in pool.imap_unordered(_worker, shards, chunksize=1):
             total.merge(st)
     return total
@@ -201,11 +208,12 @@ sys.path.insert(0, {verif!r})
 from mc import kernel
 
 CASE = json.loads({case!r})
+SHARD = json.loads({shard!r})  # not None: the case fails only after the executions preceding it in this shard
 
 
 class Replay(unittest.TestCase):
     def test_replay(self):
-        violations = kernel.replay_case({pid!r}, CASE)
+        violations = kernel.replay_case({pid!r}, CASE, SHARD)
         self.assertEqual(violations, [], "\\n".join(v["msg"] for v in violations))
 
 
@@ -226,6 +234,7 @@ def write_replay(prop_id, v):
                 "case": v["case"],
                 "msg": v["msg"],
                 "fingerprint": v.get("fingerprint", ""),
+                "shard": v.get("shard") if v.get("history_dependent") else None,
             },
             indent=1,
             ensure_ascii=True,
@@ -233,7 +242,13 @@ def write_replay(prop_id, v):
         )
     )
     (REPLAY_DIR / f"{name}.py").write_text(
-        _UNITTEST_TMPL.format(pid=prop_id, name=name, verif=str(VERIF), case=blob)
+        _UNITTEST_TMPL.format(
+            pid=prop_id,
+            name=name,
+            verif=str(VERIF),
+            case=blob,
+            shard=json.dumps(v.get("shard") if v.get("history_dependent") else None, default=repr),
+        )
     )
     return path
 
@@ -268,16 +283,48 @@ def isolated_replay(drv, case):
     return out
 
 
+def shard_replay(drv, shard, case):
+    """Re-run a whole shard in a forked child and return its violations for `case` (history-dependent
+    failures: the case only fails after the executions that precede it in its shard)."""
+    import pickle
+
+    r, w = os.pipe()
+    pid = os.fork()
+    if pid == 0:
+        try:
+            os.close(r)
+            try:
+                st = drv.run_shard(shard)
+                key = json.dumps(case, sort_keys=True, default=repr)
+                out = ("ok", [v for v in st.violations if json.dumps(v["case"], sort_keys=True, default=repr) == key])
+            except BaseException as e:  # noqa: BLE001
+                out = ("exc", f"{type(e).__name__}: {e}")
+            with os.fdopen(w, "wb") as f:
+                pickle.dump(out, f)
+        finally:
+            os._exit(0)
+    os.close(w)
+    with os.fdopen(r, "rb") as f:
+        data = f.read()
+    os.waitpid(pid, 0)
+    if not data:
+        return []
+    status, out = pickle.loads(data)
+    return out if status == "ok" else []
+
+
 def load_driver(prop_id):
     import importlib
 
     return importlib.import_module(f"mc.props.{prop_id.lower()}")
 
 
-def replay_case(prop_id, case):
+def replay_case(prop_id, case, shard=None):
     drv = load_driver(prop_id)
     if hasattr(drv, "setup"):
         drv.setup("replay", 0)
+    if shard is not None:
+        return shard_replay(drv, shard, case)
     return drv.replay(case)
 
 
@@ -443,6 +490,13 @@ def run_check(prop_id, tier="quick", seed=0, jobs=None):
     for v in picked:
         r1 = isolated_replay(drv, v["case"])
         r2 = isolated_replay(drv, v["case"])
+        if not r1 and not r2 and v.get("shard") is not None and not v.get("soft"):
+            # not reproducible from the case alone: does it reproduce after the executions preceding it in its shard?
+            r1 = shard_replay(drv, v["shard"], v["case"])
+            r2 = shard_replay(drv, v["shard"], v["case"])
+            if r1 and r2:
+                v["history_dependent"] = True
+                v["msg"] = "[depends on the executions preceding it in its shard] " + v["msg"]
         m1 = sorted(x["msg"] for x in r1)
         m2 = sorted(x["msg"] for x in r2)
         if m1 != m2:
